@@ -187,12 +187,13 @@ def ob_reseat_free(L0, lo, hi, M, ctx):
     fb = p - (p.floor() if isinstance(p, SymNum) else F(p).__floor__())
     fm = p / M - ((p / M).floor() if isinstance(p / M, SymNum) else (F(p) / M).__floor__())
     region = []
-    if ctx.all(ctx.gt(fm, 0), ctx.le(fm, F(1, 1000))):
+    thr = F(0.001)  # the library's threshold is the double 0.001; the classification uses the same number (exact comparisons)
+    if bool(fm > 0) and bool(fm <= thr):
         region.append("within-0.1%-of-a-measure-after-a-measure-line")
-        region.append("first-measure" if ctx.lt(p, M) else "later-measure")
-    elif ctx.all(ctx.gt(fb, 0), ctx.le(fb, F(1, 1000))):
+        region.append("first-measure" if bool(p < M) else "later-measure")
+    elif bool(fb > 0) and bool(fb <= thr):
         region.append("within-0.1%-of-a-beat-after-a-beat-line")
-        region.append("first-measure" if ctx.lt(p, M) else "later-measure")
+        region.append("first-measure" if bool(p < M) else "later-measure")
     rg = "{%s}" % ",".join(region) if region else ""
     try:
         res = TimingMap.reseat_bpm_changes_snap(bcs)
